@@ -230,6 +230,9 @@ func (fe *FnExec) havocArg(st *State, a Val, depth int) {
 			}
 		}
 	case FuncV:
+		if x.Fn != nil && fe.eng.contracts[fnKey(x.Fn)] != nil {
+			return // a closure under contract: the last-call rule accounts for its effect on the captured cells
+		}
 		for _, b := range x.Bind {
 			if p, ok := b.(PtrV); ok && p.Cell != nil {
 				st.cells[p.Cell] = fe.freshVal(p.Cell.Type().(*types.Pointer).Elem(), "hv")
